@@ -48,6 +48,15 @@ def depth_probes(rng):
     for name, text in probes.items():
         for v in VERSIONS:
             yield text, v, 'depth-probe:' + name
+    # every layout string of <= 4 symbols (names, brackets, line ends, comments, continuation lines, indentation,
+    # a block header): the cheapest inputs on which indentation bookkeeping and recovery can disagree
+    import itertools
+    from harness import inputs
+    k = 0
+    for n in range(1, 5):
+        for tup in itertools.product(inputs.LAYOUT_ALPHABET, repeat=n):
+            k += 1
+            yield ''.join(tup), VERSIONS[k % len(VERSIONS)], 'layout'
 
 
 LONG = {
